@@ -236,7 +236,14 @@ class GeomMonitor(taps.Monitor):
             t = p[tl]
             fn = np.cross(t[:, 1] - t[:, 0], t[:, 2] - t[:, 0])
             ln = np.linalg.norm(fn, axis=1, keepdims=True)
-            good = (ln[:, 0] > 1e-6 * scale ** 2) | (ln[:, 0] == 0)      # an exactly degenerate face has no normal and contributes nothing
+            # a face has a well defined normal when it is well *shaped* (twice its area against its longest edge squared) and its
+            # edges are not lost in the rounding of the coordinates - however small it is next to the other faces; an exactly
+            # degenerate face has no normal and contributes nothing
+            el_ = np.stack([np.linalg.norm(t[:, 1] - t[:, 0], axis=1), np.linalg.norm(t[:, 2] - t[:, 1], axis=1), np.linalg.norm(t[:, 0] - t[:, 2], axis=1)], axis=1)
+            lmax = el_.max(axis=1)
+            with np.errstate(divide="ignore", invalid="ignore"):
+                quality = np.where(lmax > 0, ln[:, 0] / np.where(lmax > 0, lmax, 1) ** 2, 0)
+            good = ((quality > 1e-3) & (lmax > 1e-8 * scale)) | (ln[:, 0] == 0)
             fnu = np.where(ln > 0, fn / np.where(ln > 0, ln, 1), 0)
             acc = np.zeros_like(p)
             bad_vertex = np.zeros(len(p), dtype=bool)
@@ -282,6 +289,26 @@ def make_mesh(rng, cls, d, kind):
         pts = rng.uniform(-10, 10, (n, d))
         used = rng.choice(n, int(rng.integers(40, 120)), replace=False)
         tl = np.array([rng.choice(used, 3, replace=False) for _ in range(int(rng.integers(25, 70)))], dtype=np.int64)
+    elif kind == "detail_patch":
+        # a coarse mesh with a patch of fine detail in the same triangle list (terrain plus a scanned artefact): the small
+        # triangles are well shaped, just four to five orders of magnitude smaller
+        n0 = int(rng.integers(4, 9))
+        pts = gen.general_position(rng, n0, d)
+        tl = gen.cover_all_vertices(rng, n0, gen.trilist_for(rng, pts, "random"))
+        k = int(rng.integers(3, 7))
+        centre = pts[rng.integers(0, n0)] + rng.normal(size=d) * (0.0 if rng.random() < 0.5 else 3.0)
+        fine = 10.0 * 10.0 ** rng.uniform(-5, -3.6)
+        ang = np.sort(rng.uniform(0, 2 * np.pi, k)) + np.linspace(0, 0.3, k)
+        ring = np.zeros((k, d))
+        ring[:, 0], ring[:, 1] = np.cos(ang), np.sin(ang)
+        if d == 3:
+            ring[:, 2] = rng.uniform(-0.4, 0.4, k)
+            ring = ring @ gen.rotation_matrix(rng, 3).T
+        det = centre + fine * np.vstack([np.zeros((1, d)), ring * rng.uniform(0.7, 1.3, (k, 1))])
+        fan = np.array([[n0, n0 + 1 + j, n0 + 1 + (j + 1) % k] for j in range(k - (0 if k > 3 else 1))], dtype=tl.dtype)
+        pts = np.vstack([pts, det])
+        tl = np.vstack([tl, fan])
+        tl = tl[rng.permutation(len(tl))]
     elif kind == "degenerate":
         # ordinary triangles plus thin ones (height 1e-9 .. 1e-3 of the base) and exactly degenerate ones (a repeated
         # position, three collinear grid points) that share vertices with the ordinary triangles
@@ -330,9 +357,9 @@ def make_mesh(rng, cls, d, kind):
     if rng.random() < 0.3 and kind != "grid":
         tl = tl.astype(np.uint32)
     r_ = rng.random()
-    if r_ < 0.2 and kind != "degenerate":
+    if r_ < 0.2 and kind not in ("degenerate", "detail_patch"):
         pts = pts.astype(np.float32)          # meshes loaded from files are often single precision
-    elif r_ < 0.35 and kind not in ("degenerate",):
+    elif r_ < 0.35 and kind not in ("degenerate", "detail_patch"):
         # integer-typed vertex coordinates: pixel / voxel indices, coordinates written as integer literals
         dt = [np.int64, np.int32, np.int16, np.uint16, np.uint8][rng.integers(0, 5)]
         span = 250.0 if dt in (np.uint8,) else 900.0
@@ -349,7 +376,8 @@ def make_mesh(rng, cls, d, kind):
 
 
 CLASSES = ["TriMesh", "ColouredTriMesh", "TexturedTriMesh"]
-KINDS = ["grid", "delaunay", "random", "nonmanifold", "degenerate", "sparse_large"]
+KINDS = ["grid", "delaunay", "random", "nonmanifold", "degenerate", "sparse_large", "detail_patch"]
+KINDS_GEOM = [k_ for k_ in KINDS if k_ != "sparse_large"]
 
 
 def bucket(n):
@@ -359,8 +387,8 @@ def bucket(n):
 def w_mask(ctx, rng, i):
     cls = CLASSES[i % 3]
     d = 2 + (i // 3) % 2
-    kind = KINDS[(i // 6) % 6]
-    if kind == "sparse_large" and (i // 36) % 4:
+    kind = KINDS[(i // 6) % len(KINDS)]
+    if kind == "sparse_large" and (i // 42) % 4:
         kind = "random"                 # the large meshes are a small share of the cases
     m = make_mesh(rng, cls, d, kind)
     if rng.random() < 0.5:
@@ -425,7 +453,7 @@ def w_geometry(ctx, rng, i):
     from menpo.transform import Rotation, Translation, UniformScale
     cls = CLASSES[i % 3]
     d = 2 + (i // 3) % 2
-    kind = KINDS[(i // 6) % 5]
+    kind = KINDS_GEOM[(i // 6) % len(KINDS_GEOM)]
     m = make_mesh(rng, cls, d, kind)
     if rng.random() < 0.5 and m.points.dtype == np.float64:
         # any overall size: millimetre-scale scans, unit-normalised shapes, kilometre-scale terrain
